@@ -32,7 +32,8 @@ THEOREMS = ["C01_mh_detailed_balance", "C01_mh_stationary", "C01_retry_kernel_st
             "C01_retry_weighted_ok", "C01_retry_chain_refuted", "C01_stretch_balance",
             "C01_stretch_reversible", "C01_stretch_support_inverse", "C01_stretch_pinned_irreversible",
             "C01_g_symmetry", "C01_zmap_range", "C01_zmap_inverse", "C01_tempering_factor",
-            "C01_decision_is_metropolis", "C01_below_mh_prob"]
+            "C01_decision_is_metropolis", "C01_below_mh_prob",
+            "C01_reflect_proposal_reversible", "C01_abs_proposal_reversible"]
 ACCEPT_THEOREMS = ["AcceptBounds_exp_lo", "AcceptBounds_exp_hi", "AcceptBounds_decide_accept",
                    "AcceptBounds_decide_accept_any"]
 
